@@ -125,6 +125,12 @@ def m_route(pre, ev, post):
         if not post_ep.alive:
             return
         new = [s for s in post_ep.controller.ike_sas if bytes(s.my_spi) not in pre_spis]
+        # the IKE_SAs held before are not this request's business: all still listed, in the state they were in
+        brief = lambda sas: {bytes(s.my_spi): (bytes(s.peer_spi), s.state.name, len(s.child_sas)) for s in sas}
+        was, now = brief(pre_ep.controller.ike_sas), brief(post_ep.controller.ike_sas)
+        gone = sorted(k.hex() for k in was if was[k] != now.get(k))
+        if gone:
+            yield ('M-route', 'init-req-touches-others', 'an IKE_SA_INIT request removed or changed the IKE_SAs %s' % gone)
         created_then_removed = (len(calls) == 1 and calls[0][1] not in pre_spis)
         if len(new) > 1 or (len(new) == 0 and not created_then_removed):
             yield ('M-route', 'init-req-created:%d' % len(new), 'IKE_SA_INIT request created %d IKE_SAs' % len(new))
